@@ -19,6 +19,7 @@ import (
 	"strconv"
 	"strings"
 	"sync"
+	"unicode"
 	"unicode/utf16"
 	"unicode/utf8"
 
@@ -1523,4 +1524,32 @@ func init() {
 		}
 		return math.Signbit(a[0].(float64))
 	}
+}
+
+func init() {
+	// table-driven stdlib functions are bridged natively (their package tables are not initialised in the engine)
+	bridge("unicode/utf8.DecodeRuneInString", utf8.DecodeRuneInString)
+	bridge("unicode/utf8.DecodeLastRuneInString", utf8.DecodeLastRuneInString)
+	bridge("unicode/utf8.DecodeRune", utf8.DecodeRune)
+	bridge("unicode/utf8.DecodeLastRune", utf8.DecodeLastRune)
+	bridge("unicode/utf8.RuneCount", utf8.RuneCount)
+	bridge("unicode/utf8.Valid", utf8.Valid)
+	bridge("unicode/utf8.ValidRune", utf8.ValidRune)
+	bridge("unicode/utf8.FullRune", utf8.FullRune)
+	bridge("unicode/utf8.AppendRune", utf8.AppendRune)
+	bridge("unicode.IsLower", unicode.IsLower)
+	bridge("unicode.IsUpper", unicode.IsUpper)
+	bridge("unicode.IsLetter", unicode.IsLetter)
+	bridge("unicode.IsDigit", unicode.IsDigit)
+	bridge("unicode.IsSpace", unicode.IsSpace)
+	bridge("unicode.IsPunct", unicode.IsPunct)
+	bridge("unicode.IsControl", unicode.IsControl)
+	bridge("unicode.IsPrint", unicode.IsPrint)
+	bridge("unicode.IsGraphic", unicode.IsGraphic)
+	bridge("unicode.ToLower", unicode.ToLower)
+	bridge("unicode.ToUpper", unicode.ToUpper)
+	bridge("unicode.ToTitle", unicode.ToTitle)
+	bridge("unicode.SimpleFold", unicode.SimpleFold)
+	bridge("strings.Map", nil)
+	delete(natives, "strings.Map")
 }
